@@ -292,7 +292,6 @@ DWORD WINAPI reb_server_start(void* args){
         if (!request){
             reb_server_cerror(stream, "Did not get request.");
             fclose(stream);
-            close(childfd);
             continue;
         }
         sscanf(buf, "%s %s %s\n", method, uri, version);
@@ -301,7 +300,6 @@ DWORD WINAPI reb_server_start(void* args){
         if (strcasecmp(method, "GET") && strcasecmp(method, "POST")) {
             reb_server_cerror(stream, "Only GET+POST are implemented.");
             fclose(stream);
-            close(childfd);
             continue;
         }
            
@@ -452,7 +450,6 @@ screenshot_finish:
         /* clean up */
         fflush(stream);
         fclose(stream);
-        close(childfd);
 
     }
     printf("Server shutting down...\n");
